@@ -382,12 +382,44 @@ def c02(ctx):
     ctx.validate(files)
 
 
+def prsctp_family(ctx):
+    """PrSctp.tla engine slice (abandonment, Advanced.Peer.Ack.Point, FORWARD-TSN content, receiver skip): exhaustive
+    TLC, negative control (ack point stepping over gap-acked chunks must destroy a reliable message) whose
+    counterexamples are replayed too, breadth-first behaviours replayed content-keyed on real associations."""
+    binp = ctx.harness()
+    for c in (("q0", "q1") if ctx.quick else ("q0", "q1", "r0", "r1")):
+        ctx.tlc_design("MC_PrSctp", "MC_PrSctp_%s.cfg" % c, workers=8, timeout=3000, heap="12g")
+    out = ctx.scr.mkdir("xrprm")
+    files = []
+    for rl, cfgs in ((0, ["MC_PrSctp_neg.cfg", "MC_PrSctp_emit10.cfg"] + ([] if ctx.quick else ["MC_PrSctp_emit8.cfg", "MC_PrSctp_emit12.cfg"])),
+                     (1, ["MC_PrSctp_emit10_rl1.cfg"] + ([] if ctx.quick else ["MC_PrSctp_emit12_rl1.cfg"]))):
+        paths = []
+        for cfg in cfgs:
+            if cfg.endswith("neg.cfg"):
+                paths.append(tlc_behaviours(ctx, "MC_PrSctp", cfg, 1, 1, workers=2, expect_violation="NoReliableSkippedP")[0])
+            else:
+                paths.append(tlc_behaviours(ctx, "MC_PrSctp", cfg, 1, 10, workers=4, bfs=True, cap=200 if ctx.quick else 4000, timeout=1200)[0])
+        allb = os.path.join(out, "behaviours-rl%d.jsonl" % rl)
+        with open(allb, "w") as f:
+            for p in paths:
+                f.write(open(p).read())
+        nb = sum(1 for _ in open(allb))
+        ps = L.run_shards(binp, "xfer-replay", out, 4, {"VF_IN": allb, "VF_NSHARDS": 4, "VF_PRMODEL": 1, "VF_RL": rl})
+        for p in ps:
+            if p.returncode != 0:
+                raise L.MachineryError("xfer-replay (PrSctp) failed: " + (p.stdout + p.stderr)[-2000:])
+        ctx.replayed += nb
+    ctx.distinct.add(("prsctp-schedules",))
+    return sorted(glob.glob(os.path.join(out, "xrprm*.ndjson")))
+
+
 @check("C07", ["C07_"])
 def c07(ctx):
     reasm_component(ctx, "C07", replay=not ctx.quick)
     files = xfer_traces(ctx, ["pr", "pr", "pr", "lossy", "il"], 120, 5000)
     files += directed_traces(ctx, "prdir", 8 if ctx.quick else 16, {"VF_FULL": "0" if ctx.quick else "1"})
     files += transfer_family(ctx, design=False, pr=True)   # Transfer.tla environment schedules under partial reliability
+    files += prsctp_family(ctx)
     ctx.exhaustive = True
     ctx.notes.append("prdir: every set of <= 2 dropped (message, fragment) first transmissions over 3 message shapes x ordered/unordered x DATA/I-DATA "
                      "(+ lost FORWARD-TSN, differently configured receiver, mixed ordering variants) is enumerated")
@@ -741,7 +773,7 @@ def c03(ctx):
     ctx.exhaustive = True
     # seeded byte-level mutations of genuine packets
     out2 = ctx.scr.mkdir("fuzz")
-    ps = L.run_shards(binp, "fuzz", out2, 8 if ctx.quick else 16, {"VF_N": 6 if ctx.quick else 300, "VF_NMUT": 20 if ctx.quick else 40, "VF_SEED": ctx.seed})
+    ps = L.run_shards(binp, "fuzz", out2, 8 if ctx.quick else 16, {"VF_N": 6 if ctx.quick else 60, "VF_NMUT": 20 if ctx.quick else 30, "VF_SEED": ctx.seed})
     crash_as_violation(ctx, ps, out2, "fuzz", "C03_Panic")
     files += sorted(glob.glob(os.path.join(out2, "fuzz-*.ndjson")))
     # recv component: inbound-driven structure must not panic either
